@@ -1,1 +1,21 @@
-// access to private items of the parent module (compiled only under --cfg rustdds_verif)
+// access to private items of dds/with_key/datareader.rs
+use super::*;
+
+impl<D: Keyed + 'static, DA: DeserializerAdapter<D>> DataReader<D, DA>
+where
+  D::K: std::fmt::Debug,
+{
+  pub(crate) fn verif_held(&self) -> Vec<(GUID, i64)> {
+    self.datasample_cache.verif_held()
+  }
+  pub(crate) fn verif_digest(&self) -> String {
+    format!(
+      "{} {}",
+      self.simple_data_reader.verif_digest(),
+      self.datasample_cache.verif_digest()
+    )
+  }
+  pub(crate) fn verif_sdr(&self) -> &SimpleDataReader<D, DA> {
+    &self.simple_data_reader
+  }
+}
